@@ -1,4 +1,5 @@
 import OpenHTF.Driver.C20
+import OpenHTF.Driver.C16
 open OpenHTF.Driver
 
 def stripNl (s : String) : String :=
@@ -7,6 +8,7 @@ def stripNl (s : String) : String :=
 def dispatch (line : String) : String :=
   match words line with
   | "C20" :: ts => C20.handle ts
+  | "C16" :: ts => C16.handle ts
   | _ => reply false false "unknown-property"
 
 partial def loop (i o : IO.FS.Stream) (acc : Array String) (n : Nat) : IO Unit := do
